@@ -61,9 +61,11 @@ def main():
         return ok, o[-1500:]
     clean_ok, clean_out = run_demo()
     rc, o = sh("git apply --whitespace=nowarn %s" % os.path.join(os.path.abspath(src), "patch.diff"), scratch)
-    if rc != 0:
-        print("patch does not apply:", o)
-        sys.exit(2)
+    if rc != 0:   # the tree moved on since the change was written: try with fuzz
+        rc, o = sh("patch -p1 -F3 --no-backup-if-mismatch < %s" % os.path.join(os.path.abspath(src), "patch.diff"), scratch)
+        if rc != 0:
+            print("patch does not apply:", o[-500:])
+            sys.exit(2)
     rc, o = sh("go build ./... 2>&1 | tail -5", scratch)
     out["builds"] = "FAIL" not in o and rc == 0
     mut_ok, mut_out = run_demo()
